@@ -23,8 +23,8 @@ def check(tier, seed):
     ]
     d.not_decided += [
         "kpm.greens_function: loop-exit postcondition proved for any number of iterations (residual of the returned vector <= atol unless a RuntimeWarning was issued); "
-        "_group_close_energies and _kernel_pivot_rows (pivoted QR) are not under deductive contract: they are covered by the bounded "
-        "battery section 'solvers' only (scipy LU, QR, argsort grouping, KPM convergence are external); solve_sylvester_direct is under a structural contract "
+        "_kernel_pivot_rows is under a structural contract (leading k pivots of the column-pivoted QR of the transposed basis); that these rows form an invertible submatrix is the assumed QR fact, exercised by the bounded "
+        "battery section 'solvers' only (scipy LU, QR, KPM convergence are external; _group_close_energies is under contract: levels within atol are never separated, groups are chains, contracts/grouping.py); solve_sylvester_direct is under a structural contract "
         "(which Green's function serves which level / row, projections, sign); direct_greens_function under an assembly contract and _constrain_matrix under an entry-wise contract, "
         "joined by the Lean lemmas PV.Direct.greens_solves / constrained_injective; "
         "KPM accuracy is a numerical-analysis statement outside this technique",
